@@ -208,7 +208,7 @@ def h_spline(ctx, method, vec):
     p.final_setup()
     p.set_val('sp.ycp', y)
     p.run_model()
-    yi = np.asarray(p.get_val('sp.yi'))
+    yi = np.array(np.asarray(p.get_val('sp.yi')))       # a copy: the finite-difference reruns of a float replay overwrite the output vector
     J = np.asarray(p.compute_totals(of=['sp.yi'], wrt=['sp.ycp'], return_format='array'))
     ni = len(x_interp)
     ctx.check('jac_shape', J.shape == (vec * ni, vec * ncp))
